@@ -23,7 +23,18 @@ ASSUMPTIONS = [
 
 
 # translator tie: intersection_param is regenerated from src/geom2/line2.rs on every run and must be convertible with the model
-SPECS = [dict(rust="src/geom2/line2.rs", gen="Line2", model="Model.Intersect", fns=["intersection_param"])]
+SPECS = [dict(rust="src/geom2/line2.rs", gen="Line2", model="Model.Intersect", fns=["intersection_param"]),
+         # the per-edge test: a polyline is read as its vertex list, parry's Ray as (origin, direction), and intersect_rays as
+         # intersection_param on the two rays (line2.rs, one line)
+         dict(rust="src/geom2/polyline2.rs", gen="Polyline2", model="Model.Intersect", types="Model.Types Model.Intersect", fns=[],
+              extra_structs={"Ray": [("origin", "Point2"), ("dir", "Vector2")]}, type_map={"Polyline": "(list (num * num)%type)"},
+              method_map={"Polyline.vertices": ["{0}", "Vec<Point2>"]},
+              call_map={"Ray::new": "(mk_Ray {0} {1})",
+                        "intersect_rays": "(intersection_param (Ray_origin {0}) (Ray_dir {0}) (Ray_origin {1}) (Ray_dir {1}))"},
+              call_ty={"Ray::new": "Ray", "intersect_rays": "Option<(f64, f64)>"},
+              stmts={"ray_intersect_with_edge":
+                     "forall (N : EG.Num.Num.Num) line (ray : @Ray N) i, @{G}.ray_intersect_with_edge N line ray i = "
+                     "@{M}.ray_edge N (Ray_origin ray) (Ray_dir ray) (nth i line (nofZ 0, nofZ 0)) (nth (S i) line (nofZ 0, nofZ 0))"})]
 
 
 def translate():
